@@ -79,6 +79,8 @@ func VerifDo(n int, par int) {
 	vCover("do")
 }
 
+var vHammeredDo int
+
 // VerifDoContext: the error contract.
 func VerifDoContext(n int, par int, failMask int, ctxMode int) {
 	defer vTwoProcs()()
@@ -170,7 +172,8 @@ func VerifDoContext(n int, par int, failMask int, ctxMode int) {
 	vQuiesce()
 	vAssert(g.total == before, "docontext/no-call-starts-after-return")
 	cancel()
-	if vNative() && anyFail && ctxMode == 0 {
+	if vNative() && anyFail && ctxMode == 0 && vHammeredDo < 4 {
+		vHammeredDo++ // at most a few times per replay process
 		// native replay only: the window between a failing call and the errgroup recording its
 		// error is a few nanoseconds; hammer it (many workers, many no-op calls, one failure)
 		runtime.GOMAXPROCS(runtime.NumCPU())
